@@ -177,7 +177,7 @@ package aml
 //@ pred member(t *ObjectTree, o *Object) = o != nil && inPoolIdx(t, o.index) && ob(t, o.index) == o && o.opcode != pOpIntFreedObject
 
 //@ func (tree *ObjectTree) ObjectAt(index uint32) (o *Object)
-//@   property C13
+//@   property C13 C12
 //@   requires poolShape(tree)
 //@   ensures o == nil <==> !live(tree, index)
 //@   ensures o != nil ==> o == ob(tree, index)
@@ -185,7 +185,7 @@ package aml
 // detach: arg must be a child of obj; afterwards arg has no parent and no siblings, its former
 // neighbours are linked to each other, obj's first/last child are updated
 //@ func (tree *ObjectTree) detach(obj *Object, arg *Object)
-//@   property C13
+//@   property C13 C12
 //@   requires wfTree(tree) && member(tree, obj) && member(tree, arg) && arg.parentIndex == obj.index
 //@   modifies Object.firstArgIndex, Object.lastArgIndex, Object.prevSiblingIndex, Object.nextSiblingIndex, Object.parentIndex
 //@   ensures detached: arg.parentIndex == InvalidIndex && arg.prevSiblingIndex == InvalidIndex && arg.nextSiblingIndex == InvalidIndex
@@ -198,7 +198,7 @@ package aml
 
 // append: arg (detached) becomes the last child of obj
 //@ func (tree *ObjectTree) append(obj *Object, arg *Object)
-//@   property C13
+//@   property C13 C12
 //@   requires wfTree(tree) && member(tree, obj) && member(tree, arg) && arg.parentIndex == InvalidIndex && arg.prevSiblingIndex == InvalidIndex && arg.nextSiblingIndex == InvalidIndex && arg != obj
 //@   modifies Object.firstArgIndex, Object.lastArgIndex, Object.prevSiblingIndex, Object.nextSiblingIndex, Object.parentIndex
 //@   ensures last: arg.parentIndex == obj.index && obj.lastArgIndex == arg.index && arg.nextSiblingIndex == InvalidIndex && arg.prevSiblingIndex == old(obj.lastArgIndex) && obj.firstArgIndex == ite(old(obj.firstArgIndex) == InvalidIndex, arg.index, old(obj.firstArgIndex))
@@ -207,7 +207,7 @@ package aml
 
 // appendAfter: arg (detached) becomes the sibling right after nextTo, a child of obj
 //@ func (tree *ObjectTree) appendAfter(obj *Object, arg *Object, nextTo *Object)
-//@   property C13
+//@   property C13 C12
 //@   requires wfTree(tree) && member(tree, obj) && member(tree, arg) && member(tree, nextTo) && nextTo.parentIndex == obj.index && arg.parentIndex == InvalidIndex && arg.prevSiblingIndex == InvalidIndex && arg.nextSiblingIndex == InvalidIndex && arg != obj && arg != nextTo
 //@   modifies Object.firstArgIndex, Object.lastArgIndex, Object.prevSiblingIndex, Object.nextSiblingIndex, Object.parentIndex
 //@   ensures after: arg.parentIndex == obj.index && arg.prevSiblingIndex == nextTo.index && nextTo.nextSiblingIndex == arg.index && arg.nextSiblingIndex == old(nextTo.nextSiblingIndex)
@@ -217,7 +217,7 @@ package aml
 
 // free: a childless object is detached, marked freed and pushed on the free list
 //@ func (tree *ObjectTree) free(obj *Object)
-//@   property C13
+//@   property C13 C12
 //@   maypanic
 //@   requires wfTree(tree) && member(tree, obj)
 //@   requires nochild: forall(k, uint32, live(tree, k) ==> ob(tree, k).parentIndex != obj.index) || obj.firstArgIndex != InvalidIndex
@@ -227,7 +227,7 @@ package aml
 
 // newObject: a freed slot is reused before the pool grows; the object comes back detached
 //@ func (tree *ObjectTree) newObject(opcode uint16, tableHandle uint8) (o *Object)
-//@   property C13
+//@   property C13 C12
 //@   requires wfTree(tree) && len(tree.objPool) < 0xfffffffe && opcode <= 0x1fe
 //@   modifies tree.objPool, tree.freeListHeadIndex, Object.opcode, Object.infoIndex, Object.tableHandle, Object.parentIndex, Object.prevSiblingIndex, Object.nextSiblingIndex, Object.firstArgIndex, Object.lastArgIndex, Object.value, Object.index, elems(*Object)
 //@   ensures reuse: old(tree.freeListHeadIndex) != InvalidIndex ==> o == old(ob(tree, tree.freeListHeadIndex)) && len(tree.objPool) == old(len(tree.objPool)) && tree.freeListHeadIndex == old(ob(tree, tree.freeListHeadIndex).nextSiblingIndex)
@@ -236,7 +236,7 @@ package aml
 
 // lookups never index out of range or dereference nil, whatever the expression bytes are
 //@ func (tree *ObjectTree) findRelative(scopeIndex uint32, expr []byte) (r uint32)
-//@   property C13
+//@   property C13 C12
 //@   requires wfTree(tree) && live(tree, scopeIndex)
 //@   ensures r == InvalidIndex || live(tree, r)
 //@   loop 1 (segIndex < exprLen) invariant 0 <= segIndex && live(tree, scopeIndex) && exprLen == len(expr)
@@ -246,7 +246,7 @@ package aml
 //@   at entry: inst scopeIndex
 
 //@ func (tree *ObjectTree) Find(scopeIndex uint32, expr []byte) (r uint32)
-//@   property C13
+//@   property C13 C12
 //@   requires wfTree(tree) && (scopeIndex == InvalidIndex || live(tree, scopeIndex)) && live(tree, 0)
 //@   ensures r == InvalidIndex || live(tree, r)
 //@   ensures root: len(expr) == 1 && expr[0] == 92 && scopeIndex != InvalidIndex ==> r == 0
